@@ -1427,7 +1427,14 @@ func (client *client) newPacketIDLimiter(limit uint16) {
 
 func (client *client) pollInflights() (cont bool, err error) {
 	var elems []*queue.Elem
-	elems, err = client.queueStore.ReadInflight(uint(client.opts.MaxInflight))
+	// The window of this connection (its Receive Maximum may be smaller than that of the connection the messages
+	// were first sent to) also holds for retransmissions: replay as many as there is room for, the rest follows
+	// as the client acknowledges.
+	free, ok := client.pl.waitFree()
+	if !ok {
+		return false, nil
+	}
+	elems, err = client.queueStore.ReadInflight(uint(free))
 	if err != nil || len(elems) == 0 {
 		return false, err
 	}
